@@ -1047,9 +1047,18 @@ class Component(composites.Composite, metaclass=ComponentType):
         if self.parent:
             # changes in dimensions can affect cached variables such as pitch
             self.parent.cached = {}
-            for c in self.getLinkedComponents():
-                # no clearCache since parent already updated derivedMustUpdate in self.clearCache()
-                c.p.volume = None
+            # dimension links resolve transitively (a link to a linked dimension), so the dependents
+            # are swept transitively as well
+            seen = {id(self)}
+            frontier = [self]
+            while frontier:
+                for c in frontier.pop().getLinkedComponents():
+                    if id(c) in seen:
+                        continue
+                    seen.add(id(c))
+                    frontier.append(c)
+                    # no clearCache since parent already updated derivedMustUpdate in self.clearCache()
+                    c.p.volume = None
 
     def getLinkedComponents(self):
         """Find other components that are linked to this component."""
